@@ -74,6 +74,23 @@ let parse_tx () =
   let ops = repeat no parse_op in
   { tx_sys = sys; tx_vetoes = vetoes; tx_ops = ops; tx_precommit_fails = pcf }
 
+(* C16 mixed transactions (Store/SystemMixed.v, harness store_c16s.go): the pseudo veto  @m C <mode string>  carries three
+   characters per operation: context (b = the transaction's base context, s / n / u = a system context derived from it,
+   x / y = a fresh ordinary / system context on the same bolt transaction),
+   swallow (w), decoration of the entity (not modelled: the machine has no timestamps / tags / Migrate) *)
+let mixed_modes (t : tx) : string option =
+  List.fold_left (fun acc ((s, _), i) -> if string_of_name s = "@m" then Some (string_of_name i) else acc) None t.tx_vetoes
+
+let run_tx_any sch fuel st (t : tx) =
+  match mixed_modes t with
+  | None -> run_tx sch fuel st t
+  | Some ms ->
+      let mops = List.mapi (fun k o ->
+        let c = if 3 * k < String.length ms then ms.[3 * k] else 'b' in
+        let w = 3 * k + 1 < String.length ms && ms.[3 * k + 1] = 'w' in
+        { m_sys = (c = 's' || c = 'n' || c = 'u' || c = 'y' || (c <> 'x' && t.tx_sys)); m_swallow = w; m_op = o }) t.tx_ops in
+      run_mtx sch fuel st { mt_vetoes = t.tx_vetoes; mt_ops = mops; mt_precommit_fails = t.tx_precommit_fails }
+
 let fval_str = function
   | FAbsent -> "absent" | FNil -> "nil" | FStr s -> "s" ^ hex_of_bytes s | FBool b -> if b then "b1" else "b0"
 
@@ -130,7 +147,7 @@ let () =
       let buf = Buffer.create 4096 in
       while peek () <> None do
         let t = parse_tx () in
-        let (((rs, committed), st'), evs) = run_tx sch fuel !st t in
+        let (((rs, committed), st'), evs) = run_tx_any sch fuel !st t in
         st := st';
         Buffer.add_string buf "TX R";
         List.iter (fun r -> Buffer.add_char buf ' '; Buffer.add_string buf (kind_str r)) rs;
